@@ -66,6 +66,9 @@ func histories(rec *mon.Recorder, n int, mk func(i int, rng *rand.Rand) (*world.
 					var run func()
 					w, run = mk(i, rng)
 					run()
+					if i < 3 {
+						rec.Sample(w.Witness(4))
+					}
 					mu.Lock()
 					fps[w.Fingerprint()] = struct{}{}
 					steps += len(w.Log)
